@@ -219,14 +219,33 @@ claim(
 claim(
     "C21",
     "finite-domain abstract interpretation of extracted fragments (orderings of four bounds; three-valued "
-    "booleans) + operator-delegation table + dependence (AST)",
+    "booleans; divisibility sets and linear forms modulo 2**w over symbolic paths) + operator-delegation table + "
+    "guard dominance + dependence (AST)",
     "Decides soundness of the eight order comparisons for all inputs (the per-piece verdict is evaluated under "
     "every weak ordering of the four bounds, aggregation over every verdict combination), soundness of the "
-    "three-valued connectives, the operator-to-transfer-function table (unary minus, shifts, order operators) and "
-    "that shift ranges depend on the shift amount only.",
+    "three-valued connectives, the operator-to-transfer-function table (unary minus, shifts, order operators), "
+    "that shift ranges depend on the shift amount only, that add/sub build their result from the right modular "
+    "sums/differences of bounds with a stride dividing both operands' strides, that the join's stride divides "
+    "each operand's stride and lower-bound offset on every path, that ordering tests on a raw span are bounded "
+    "below or dominated by a no-wrap fact, and that truncation keeps the stride only under a no-wrap / "
+    "stride-compatibility guard.",
     "Assumes each piece returned by _signed_bounds/_unsigned_bounds has lb <= ub and covers the members. Not "
-    "decided: the numerics of add/sub/mul/div/mod/bitwise/shift/extend/extract/concat (the confirmed mod, "
-    "sign-bit-AND and wrapping-shift defects are arithmetic facts). " + GENERIC_NOTE,
+    "decided: the numerics of mul/div/mod/bitwise/shift/extend/concat and the overflow tests of add/sub (the "
+    "confirmed mod, sign-bit-AND and wrapping-shift defects are arithmetic facts). " + GENERIC_NOTE,
+)
+claim(
+    "C22",
+    "divisibility abstract interpretation over the symbolic paths of the join and the widening + min/max polarity "
+    "table (AST)",
+    "Decides the lattice clause of 'the result contains both operands' for pseudo_join (both modes, hence "
+    "least_upper_bound and union) and widen, for all inputs and on every path: the stride of the constructed result "
+    "provably divides the stride of each operand that may hold several values and the modular offset of each "
+    "operand's lower bound from the result's lattice; an operand is handed back unchanged only where the other is "
+    "empty; a widening that moves both bounds to the extremes gives TOP; min/max fold the least lower / greatest "
+    "upper bound of the pieces matching the requested signedness.",
+    "Not decided (arithmetic over runtime bounds, declined): that the chosen bounds cover both operands, the "
+    "twelve geometric meet cases and their Diophantine solver, exactness of eval / cardinality / membership. "
+    "Two known findings: widen is unsound (both-bounds case and phase of the second operand). " + GENERIC_NOTE,
 )
 claim(
     "C23",
